@@ -29,6 +29,8 @@ type brRecv struct {
 	I     int  `json:"i"`
 	Exact bool `json:"exact"`
 	V     int  `json:"v"`
+	Same  bool `json:"same"`
+	f     float64
 }
 
 type brRet struct {
@@ -150,7 +152,7 @@ func (s *brSig) build(cur **brCall) reflect.Value {
 				return
 			}
 			sv, ok := scaled(f)
-			c.recv = append(c.recv, brRecv{I: idx, Exact: ok, V: sv})
+			c.recv = append(c.recv, brRecv{I: idx, Exact: ok, V: sv, f: f})
 		}
 		for i, a := range args {
 			if s.Variadic && i == len(args)-1 {
@@ -352,7 +354,8 @@ func C19(r *ev.Run) {
 			rec.Invoked = cur.invoked
 			for _, x := range cur.recv {
 				if x.I <= len(vec) {
-					if _, isNum := brNumVal[vec[x.I-1]]; isNum {
+					if want, isNum := brNumVal[vec[x.I-1]]; isNum {
+						x.Same = x.f == want
 						rec.Recv = append(rec.Recv, x)
 					}
 				}
